@@ -255,6 +255,21 @@ func ruleC14(w *World, r *Report) {
 	r.check(len(trueStores)+len(computedStores)+len(orStores) >= 1, "R14.3", pname, "the flag can be set (from the SNDEM bit)", w.Pos(parseFAR.Pos()), fmt.Sprintf("%d conditional + %d computed stores", len(trueStores), len(computedStores)), "parseFAR never sets sendEndMarker")
 	for k, st := range trueStores {
 		guard := onlyVia(parseFAR, st, func(a, b *ssa.BasicBlock) bool {
+			// the SNDEM bit of the flags octet, tested by the helper or by the mask itself
+			// (flags&0x02 != 0, == 0x02, > 0)
+			if x, op, y, ok := edgeFact(a, b); ok {
+				if and, isAnd := stripConv(x).(*ssa.BinOp); isAnd && and.Op == token.AND {
+					fl, mask := and.X, and.Y
+					if _, isK := constInt(fl); isK {
+						fl, mask = mask, fl
+					}
+					m, mK := constInt(mask)
+					k, kK := constInt(y)
+					if mK && m == 0x02 && kK && strings.Contains(symOf(fl).String(), ".PFCPSMReqFlags") {
+						return (op == token.NEQ && k == 0) || (op == token.GTR && k == 0) || (op == token.EQL && k == 0x02)
+					}
+				}
+			}
 			v, truth, ok := boolEdge(a, b)
 			if !ok || !truth {
 				return false
